@@ -40,7 +40,7 @@ def identity_keyed(tree_nodes):
 
 
 def check(run):
-    rules_hooks(run)
+    run.guard(rules_hooks, run)
     prog = run.prog
     r = run.rule('C18.1', 'no identity-keyed persistent state: no field of an object reachable from Interpreter is indexed by id(..)')
     with open(FIXTURE) as fh:
